@@ -1,5 +1,5 @@
 (** C02 - Logging is atomic per record: one Write, one whole line, never interleaved. *)
-From Coq Require Import List NArith Permutation.
+From Coq Require Import List NArith ZArith Permutation.
 Import ListNotations.
 From Glb Require Import Model.LoggerConc Proofs.LoggerConcP.
 
@@ -26,6 +26,20 @@ Theorem C02_atomic_lines :
   /\ (forall t, t < length prog -> count_formats t sched = length (lines_of D R line enabled (nth t prog []))).
 Proof. exact atomic_lines. Qed.
 Print Assumptions C02_atomic_lines.
+
+(** The gate is [level >= threshold] for ARBITRARY integer thresholds and levels (a threshold between
+    two named levels, below Debug, or above Fatal = "off" included): with records that carry a level,
+    exactly the records with [threshold <= level] are written, whatever the threshold. *)
+Theorem C02_atomic_lines_threshold :
+  forall (D R : Type) (line : list D -> R -> list N) (level : R -> Z) (threshold : Z) (grow : N -> N -> N)
+         (f : cflags) (prog : list (list (instr D R))) (sched : list label) (s : state D R),
+  discipline f = true ->
+  run D R line (fun r => level_enabled threshold (level r)) grow f (init D R prog) sched = Some s -> finished D R s = true ->
+  Permutation (dest D R s) (expected D R line (fun r => level_enabled threshold (level r)) prog)
+  /\ (forall t, t < length prog ->
+        count_writes t sched = length (lines_of D R line (fun r => level_enabled threshold (level r)) (nth t prog []))).
+Proof. intros. edestruct atomic_lines as (H2 & _ & H3 & _); eauto. Qed.
+Print Assumptions C02_atomic_lines_threshold.
 
 (** In every reachable state a thread that is inside Write holds the mutex of its handler. *)
 Theorem C02_writer_holds_mu :
